@@ -5,9 +5,13 @@ CONSTANTS
   Variant = "ok"
   MidCrash = TRUE
   ReqDescs = {"a", "b"}
+  Hard = {"b"}
+  ViaReserve = {"b"}
+  InitLocks = {"plain", "unlocked"}
   TopUps = {0, 4}
 INIT Init
 NEXT Next
 VIEW View0
 INVARIANTS NoRepeat ReturnedBelowNext RangeCovers TypeOK
+PROPERTY FailNoChange
 CHECK_DEADLOCK FALSE
